@@ -160,7 +160,11 @@ class Gen:
                 elif r < 0.45:
                     conds.append(['var', rng.choice(['av1', 'av2', 'av3'])])
                 elif r < 0.55:
-                    conds.append(['num', rng.choice([1.0, 1.0, 0.0])])
+                    # "the term is in the sum if the condition is not zero": 2, -1 and 0.5 select like 1 does
+                    conds.append(['num', rng.choice([1.0, 1.0, 0.0, 2.0, -1.0, 0.5])])
+                elif r < 0.6:
+                    # a count of satisfied conditions used as the condition
+                    conds.append(['+', self.boolean(depth - 1), self.boolean(depth - 1)])
                 elif r < 0.65 and self.allow_refs and booleans:
                     conds.append(['ref', rng.choice(booleans)])
                 else:
